@@ -162,10 +162,30 @@ CLAIMED = {
 }
 
 checks = []
+# source fragments translated / read from /repo on every run and the theorems re-proved against them (DESIGN 2.6); appended to the notes
+SRC_TIE = {
+ "C01": "Translator tie: the integer program of get_best_alignment (variable domain, objective, constraints, solvers, decoding) and build_A are read from "
+        "continuum.py / numba_utils.py (genprops/IlpGen.v); C01_src_program / C01_src_build_A are re-proved against them on every run. ",
+ "C06": "Translator tie: the pool section of compute_gamma (samples drawn inside the argument list of p.submit, results collected in submission order, "
+        "both batches) is read from continuum.py (genprops/PoolGen.v); C06_src_pool_section is re-proved on every run. ",
+ "C08": "Translator tie: the exceptions selecting the fallback and the solver named in each branch, for both alignments, are read from continuum.py "
+        "(genprops/IlpGen.v); C08_src_backends is re-proved on every run. ",
+ "C10": "Translator tie: to_take, the head's loop / take tests, the reachability threshold and the loop shapes of get_first_window / get_fast_alignment "
+        "are translated from continuum.py (genprops/FastGen.v); C10_src_* are re-proved on every run. ",
+ "C11": "Translator tie: the integer program of get_best_soft_alignment is read from continuum.py (genprops/IlpGen.v); C11_src_program is re-proved on "
+        "every run. ",
+ "C16": "Translator tie: _remove_pivot_segment, the integer rule of _random_from_segments and the shift / wrap of sample_from_continuum are translated from "
+        "sampler.py (genprops/SamplerGen.v); C16_src_* prove them equal to the repaired model on every run. ",
+ "C19": "Translator tie: the tool's arithmetic (amplitude, counts, shifted ends and retry test, removal test, added segment, transition entry, split bounds "
+        "and pieces, order of the perturbations) is translated from cst.py (genprops/CstGen.v); C19_src_* are re-proved on every run, incl. magnitude 0 "
+        "=> no amplitude / unit / round / removal and the identity transition row. ",
+ "C05": "Also: job selection by mode, the job functions and the result object are read from continuum.py (genprops/PoolGen.v): C05_src_modes_and_result. ",
+}
 for p in props:
     if p not in CLAIMED:
         continue
     ref, tech, text, note = CLAIMED[p]
+    note = SRC_TIE.get(p, "") + note
     checks.append({
         "property_id": p,
         "quick_cmd": "./check %s quick" % p,
